@@ -223,6 +223,13 @@ func visitInstr(fr *frame, instr ssa.Instruction) continuation {
 			fr.env[instr] = v
 			break
 		}
+		if instr.Op == token.MUL {
+			if e := fr.i.ex; e != nil && e.cfg.CellRaces && e.nthreads > 0 {
+				if p, ok := fr.get(instr.X).(*value); ok {
+					e.cellAccess(fr, p, false)
+				}
+			}
+		}
 		fr.env[instr] = unop(instr, fr.get(instr.X))
 
 	case *ssa.BinOp:
@@ -293,6 +300,9 @@ func visitInstr(fr *frame, instr ssa.Instruction) continuation {
 		}, "send on a channel nobody receives from")
 
 	case *ssa.Store:
+		if e := fr.i.ex; e != nil && e.cfg.CellRaces && e.nthreads > 0 {
+			e.cellAccess(fr, fr.get(instr.Addr).(*value), true)
+		}
 		store(mustDeref(instr.Addr.Type()), fr.get(instr.Addr).(*value), fr.get(instr.Val))
 
 	case *ssa.If:
